@@ -73,9 +73,10 @@ ASSUME SizesStraddle ==
     /\ \E g \in Range(SizeGrid) : g.shape = "elif-chain" /\ 210 \in Range(g.ns)
 
 Init == pc = "start" /\ k \in 1..NCases
+\* (one reference to Cases: see the note at SyltCorners!MkSegTable)
+EmitRec(c, i) == [idx |-> i, id |-> c.id, files |-> c.files, req |-> c.req, must |-> c.must, expect |-> c.expect]
 Emit == /\ pc = "start" /\ pc' = "done" /\ k' = k
-        /\ PrintT(<<"REPLAY", ToJson([idx |-> k, id |-> Cases[k].id, files |-> Cases[k].files, req |-> Cases[k].req,
-                                      must |-> Cases[k].must, expect |-> Cases[k].expect])>>)
+        /\ PrintT(<<"REPLAY", ToJson(EmitRec(Cases[k], k))>>)
 Next == Emit
 Spec == Init /\ [][Next]_vars
 TypeOk == pc \in {"start", "done"}
